@@ -14,4 +14,7 @@ for f in spec/engine/*.tla spec/trace/*.tla spec/rules/*.tla spec/algebra/*.tla;
 done
 rm -rf "$d"
 PYTHONPATH=/repo PYTHONDONTWRITEBYTECODE=1 /venv/bin/python -c "import autograd, numpy; print('autograd from', autograd.__file__)"
+# the SciPy wrappers are replayed under the tooling interpreter (the repository's own has no SciPy); without it that family skips itself
+(cd /tmp && PYTHONPATH=/repo PYTHONDONTWRITEBYTECODE=1 /opt/veriftools/pyvenv/bin/python -c "import autograd.scipy.special, scipy; print('scipy', scipy.__version__, 'for the scipy family')") \
+  || echo "note: no tooling interpreter with scipy - the scipy family of the rule-table checks will be skipped"
 echo setup ok
